@@ -8,7 +8,14 @@ from vlib import coq_value, coq_z, ji, jf_bits, js, jb, jts
 import gen
 
 ID = "C29"
-THEOREMS = []
+THEOREMS = ["C29_abs", "C29_abs_float", "C29_abs_min_refuted", "C29_mod_sign", "C29_mod_zero", "C29_rint_exact",
+            "C29_rint_fixed", "C29_rint_sign", "C29_round_precision0", "C29_round_precision0_inhabited",
+            "C29_round_bound_partial", "C29_round_bound_partial_inhabited",
+            "C29_round_range_refuted", "C29_round_big_refuted", "C29_round_inexact_mult_refuted",
+            "C29_round_product_refuted", "C29_round_int", "C29_to_int_trunc", "C29_conv_consistent", "C29_float_text",
+            "C29_float_text_inhabited"]
+ALLOWED_AXIOMS = ("ClassicalDedekindReals.sig_forall_dec", "ClassicalDedekindReals.sig_not_dec",
+                  "FunctionalExtensionality.functional_extensionality_dep", "Classical_Prop.classic")
 IMPORTS = ("From Coq Require Import List ZArith String.\nFrom Coq Require Import Floats.SpecFloat.\n"
            "From VRL Require Import Base.Bytes Base.Value Base.Lit Model.ConvRes Model.Arith Model.IntText "
            "Model.NumFns Corr.C29.\nLocal Open Scope string_scope.")
@@ -394,8 +401,8 @@ def known_matcher(entry, case, out):
 
 def main(run, args):
     import checklib
-    n = 4000 if run.tier == "quick" else 80000
+    n = 3000 if run.tier == "quick" else 60000
     if args.cases:
         n = args.cases
     return checklib.standard(run, ID, THEOREMS, IMPORTS, "numfn", gen_cases, to_coq, n, nontrivial=nontrivial,
-                             replay=args.replay, known_matcher=known_matcher)
+                             replay=args.replay, known_matcher=known_matcher, allowed_axioms=ALLOWED_AXIOMS)
